@@ -462,6 +462,28 @@ func c19ChildMain(tier string) {
 	os.Exit(0)
 }
 
+// c19HandlerBlockedOnLock looks, in a full goroutine dump, for the goroutine that serves the /cdc request and
+// reports its header and first repository frame when it has been waiting on a sync lock for at least a minute.
+func c19HandlerBlockedOnLock(dump string) (hdr, frame string) {
+	for _, blk := range strings.Split(dump, "\n\n") {
+		if !strings.Contains(blk, "getCDCHandler") && !strings.Contains(blk, "(*CDCServer).handleRequest") {
+			continue
+		}
+		lines := strings.Split(blk, "\n")
+		h := lines[0]
+		if !(strings.Contains(h, "[sync.") || strings.Contains(h, "[semacquire")) || !strings.Contains(h, "minute") {
+			continue
+		}
+		for _, l := range lines[1:] {
+			if strings.Contains(l, "github.com/zilliztech/milvus-cdc/") && !strings.HasPrefix(l, "\t") {
+				return h, strings.TrimSpace(l)
+			}
+		}
+		return h, "(no repository frame)"
+	}
+	return "", ""
+}
+
 func (c *c19Child) dump(idx int) {
 	tmp := filepath.Join(c.dir, "dump.tmp")
 	if err := c.run.Dump(tmp); err != nil {
@@ -667,7 +689,14 @@ func (c *c19Child) one(idx int) {
 		_ = os.WriteFile(filepath.Join(c.dir, "hung-stacks.txt"), buf, 0o644)
 		run.Eval(1)
 		run.Count("requests", 1)
-		run.Inconclusive(fmt.Sprintf("batch %d index %d: the handler did not return within %v (%s/%s)", c.batch, idx, c19RequestWatchdog, req.Kind, req.Class))
+		if hdr, frame := c19HandlerBlockedOnLock(string(buf)); hdr != "" {
+			// not slowness: the goroutine serving the request has been parked on a mutex of the service for minutes
+			// (the service holds its locks for short critical sections only) - the request will never be answered
+			run.Violate("C19/request-never-answered-handler-blocked-on-a-lock", fmt.Sprintf("batch %d index %d: %s/%s was not answered within %v; the handler goroutine is %s at %s; %d earlier request(s) of this episode: %s; body: %s",
+				c.batch, idx, req.Kind, req.Class, c19RequestWatchdog, hdr, frame, len(c.prior), c19Last(strings.Join(c.prior, " || "), 1500), c19Last(string(req.Body), 600)), map[string]any{"request": req, "prior_requests": c.prior, "stacks": c19Last(string(buf), 20000)})
+		} else {
+			run.Inconclusive(fmt.Sprintf("batch %d index %d: the handler did not return within %v (%s/%s)", c.batch, idx, c19RequestWatchdog, req.Kind, req.Class))
+		}
 		c.dump(idx)
 		_ = os.WriteFile(filepath.Join(c.dir, "hung"), []byte(strconv.Itoa(idx)), 0o644)
 		os.Exit(5)
